@@ -84,6 +84,14 @@ def rule_single_chain(ctx, res):
     s2 = ctx.calls_to('handler::DhtHandler::handle_check_table_refresh')
     exp = {'handler::DhtHandler::handle_timeout::{closure#0}', 'handler::DhtHandler::handle_bootstrap_success::{closure#0}'}
     res.check({x.body.path for x in s2} == exp and len(s2) == 2, 'WHO', 'handler::DhtHandler::handle_check_table_refresh', 'two entries: the refresh timer fired, a bootstrap completed', detail=str(s2))
+    # "once per bootstrap completion": the completion handler itself has one caller, the state-change branch of the event loop
+    # (that it runs there iff the state is Bootstrapped is C15's table); a bootstrapped() query or anything else must not reach it
+    s3 = ctx.calls_to('handler::DhtHandler::handle_bootstrap_success')
+    res.check(len(s3) == 1 and s3[0].body.path == 'handler::DhtHandler::run_once::{closure#0}', 'WHO', 'handler::DhtHandler::handle_bootstrap_success',
+              'the completion handler (which starts a refresh round) is entered only from the event loop\'s state-change branch', detail=str(s3), key='completion-entry')
+    s4 = ctx.calls_to('handler::DhtHandler::handle_timeout')
+    res.check(len(s4) == 1 and s4[0].body.path == 'handler::DhtHandler::run_once::{closure#0}', 'WHO', 'handler::DhtHandler::handle_timeout',
+              'the timer handler is entered only from the event loop\'s timer branch', detail=str(s4), key='timeout-entry')
     # the refresh object is the handler's single TableRefresh and shares the handler's timer
     hb = ctx.co('handler::DhtHandler::handle_check_table_refresh')
     hs = Sym(hb)
